@@ -405,6 +405,44 @@ VEC_DROPPERS = ("dedup", "dedup_by", "dedup_by_key", "retain", "retain_mut", "tr
                 "sort", "sort_by", "sort_by_key", "sort_unstable", "sort_unstable_by", "sort_unstable_by_key", "reverse", "insert", "extract_if")
 
 
+def rule_linecomment(ctx, rep, rid="R-C15-linecomment"):
+    """A `//` comment is the text up to, not including, the end of the line.  A pattern that also takes the line terminator yields a token
+    that is one (or two) units longer than its lexeme and extends into the next line - which a client without multi-line token support
+    cannot even represent.  The pattern is read from the lexer's attributes and tried on all strings over {/, x, CR, LF} up to length 6."""
+    import itertools
+    r = rep.rule(rid, "the pattern of a `//` comment matches no string that contains a line terminator", floor=1, floor_what="line comment patterns")
+    a = ctx.facts.astattrs.get("ironplc_parser::token::TokenType")
+    pats = []
+    for at in (a or {"variants": {}})["variants"].get("Comment", {}).get("attrs", []):
+        m = re.search(r'#\[regex\(r"(.*?)"(?:,|\))', at)
+        if m and m.group(1).startswith("//"):
+            pats.append(m.group(1))
+    if not pats:
+        r.count_override = 1
+        r.note("the lexer has no `//` comment pattern")
+        return
+    for ptn in pats:
+        try:
+            rxp = re.compile(ptn)
+        except re.error as e:
+            r.finding("TokenType::Comment|%s|not-analysable" % ptn, "parser/src/token.rs", "cannot compile the pattern: %s" % e)
+            continue
+        bad = None
+        for n in range(2, 7):
+            for tup in itertools.product("/x\r\n", repeat=n):
+                w = "".join(tup)
+                if ("\n" in w or "\r" in w) and rxp.fullmatch(w):
+                    bad = w
+                    break
+            if bad:
+                break
+        if bad:
+            r.finding("TokenType::Comment|line comment|takes the line break", "parser/src/token.rs", "the pattern `%s` matches `%s`: the comment token includes its line terminator, so its range is longer than "
+                      "the comment and ends on the next line" % (ptn, bad.replace("\r", "\\r").replace("\n", "\\n")))
+        else:
+            r.ok("TokenType::Comment|%s" % ptn, "parser/src/token.rs", "no match contains CR or LF")
+
+
 def rule_nodrop(ctx, rep, rid="R-C15-nodrop"):
     """The relative encoding makes every token's position depend on all tokens before it.  Once the list is encoded, removing,
     reordering or inserting an element shifts every later token.  No Vec<SemanticToken> in the language-server crate is modified in
@@ -537,4 +575,5 @@ def run(ctx, rep):
     rule_verbatim(ctx, rep)
     rule_newline(ctx, rep)
     rule_nodrop(ctx, rep)
+    rule_linecomment(ctx, rep)
     # R-C05-noop (column after a comment) is decided under C05
